@@ -29,6 +29,7 @@
 #include "llvm/Support/MD5.h"
 #include "llvm/Support/raw_ostream.h"
 
+#include <algorithm>
 #include <map>
 #include <set>
 #include <string>
@@ -108,19 +109,18 @@ public:
 
   // all macro names on the expansion stack of L (innermost first), ignoring
   // argument-ness: used to answer "is this node inside an expansion of M"
-  void macroStack(SourceLocation L, std::vector<std::string> &Out) {
+  void macroStack(SourceLocation L, std::vector<std::string> &Out, int depth = 0) {
     int guard = 0;
-    while (L.isMacroID() && guard++ < 64) {
+    while (L.isMacroID() && guard++ < 64 && depth < 8) {
       if (SM.isMacroArgExpansion(L)) {
-        // the argument is *used* inside the macro body: continue with the
-        // expansion (use) location, which is in the callee macro
-        auto R = SM.getImmediateExpansionRange(L);
-        L = R.getBegin();
-        // L now points to the parameter use in the macro body (or file)
+        // names of the macros the argument's tokens were spelled in (e.g. __MAX_CALL_DEPTH__ passed to CONFIG_INT)
+        macroStack(SM.getImmediateSpellingLoc(L), Out, depth + 1);
+        // the argument is *used* inside the macro body: continue with the expansion (use) location
+        L = SM.getImmediateExpansionRange(L).getBegin();
         continue;
       }
       std::string N = Lexer::getImmediateMacroName(L, SM, Ctx.getLangOpts()).str();
-      if (Out.empty() || Out.back() != N)
+      if (std::find(Out.begin(), Out.end(), N) == Out.end())
         Out.push_back(N);
       L = SM.getImmediateExpansionRange(L).getBegin();
     }
